@@ -281,6 +281,27 @@ def registry_rule(prog, rep):
     rep.check(any(norm(r.value) == "((t, token), string)" for r in rets), "REGISTRY", pt.short, "result", "((class, token), remainder)", "_parse_token does not return ((class, token text), remainder)", pt.loc())
 
 
+def spacing_rule(prog, rep):
+    rep.rule("SPACING", "every separator test of the entry loops (`s[0] == ','`, `s[0] != ':'`) is evaluated on a string proved to have no leading white space (abstract interpretation, fact LS established by strip()): otherwise spacing or a line break before the separator makes it invisible and changes the result")
+    from ..absint import F, TOP, Interp
+
+    mi = prog.module("aw_query.query2")
+    qt = mi.consts.get("qtypes")
+    classes = [prog.cls(norm(x)) for x in qt.elts] if isinstance(qt, (ast.List, ast.Tuple)) else []
+    it = Interp(prog, classes)
+    it.call(prog.func("query", "aw_query.query2"), [TOP, F("STR", "NOTNONE"), TOP, TOP, TOP])
+    n = 0
+    for key, s in sorted(it.safe.items()):
+        if key[2] == "Spacing":
+            n += 1
+            rep.ok("SPACING", s.fi.short, key[1], "operand is left-stripped", s.fi.loc(s.node))
+    for key, s in sorted(it.unsafe.items()):
+        if key[2] == "Spacing":
+            n += 1
+            rep.violation("SPACING", s.fi.short, key[1], f"`{key[1]}` looks for the separator in the first character of a string that may start with white space (known facts {sorted(s.have)}): `{{\"a\": 1 , \"b\": 2}}` (space before the comma) is no longer read as two entries, so spacing around separators changes the result", s.fi.loc(s.node))
+    rep.floor("separator tests", n, 3)
+
+
 def check(prog, rep):
     rep.level = "other"
     rep.explanation = (
@@ -298,6 +319,7 @@ def check(prog, rep):
     loops_rule(prog, rep)
     assignment_rule(prog, rep)
     registry_rule(prog, rep)
+    spacing_rule(prog, rep)
 
 
 VARIANTS = [
@@ -313,6 +335,7 @@ VARIANTS = [
     ("B namespace parameter not leading", QF, "def q2_query_bucket(\n    datastore: Datastore, namespace: TNamespace, bucketname: str\n) -> List[Event]:", "def q2_query_bucket(\n    datastore: Datastore, bucketname: str, namespace: TNamespace\n) -> List[Event]:", "REGISTRY"),
     ("B token class missing from qtypes", Q2, "qtypes: Sequence[Type[QToken]] = [QString, QInteger, QFunction, QDict, QList, QVariable]", "qtypes: Sequence[Type[QToken]] = [QString, QInteger, QFunction, QList, QVariable]", "REGISTRY"),
     ("B variable tried before function", Q2, "qtypes: Sequence[Type[QToken]] = [QString, QInteger, QFunction, QDict, QList, QVariable]", "qtypes: Sequence[Type[QToken]] = [QString, QInteger, QVariable, QFunction, QDict, QList]", "REGISTRY"),
+    ("B strip hoisted out of the dict entry loop", Q2, "        entries_str = string[1:-1]\n        d: Dict[str, QToken] = {}\n        while len(entries_str) > 0:\n            entries_str = entries_str.strip()\n", "        entries_str = string[1:-1].strip()\n        d: Dict[str, QToken] = {}\n        while len(entries_str) > 0:\n", "SPACING"),
     ("OK slice spelled with a temporary-free expression", Q2, "        if to_consume != 0:\n            return None, string\n        return string[:i], string[i:]", "        if to_consume != 0:\n            return None, string\n        return (string[:i], string[i:])", "ok"),
     ("OK depth update spelled +=", Q2, "            elif char == \"]\":\n                to_consume = to_consume - 1\n            elif char == \"[\":\n                to_consume = to_consume + 1", "            elif char == \"]\":\n                to_consume -= 1\n            elif char == \"[\":\n                to_consume += 1", "ok"),
 ]
